@@ -1,3 +1,290 @@
-import AlgoVerif.Common
-/-! # C16 — property theorems (none yet) -/
--- y
+import AlgoVerif.Model.C16
+import AlgoVerif.Spec.C16
+import AlgoVerif.Proofs.C16Order
+import AlgoVerif.Proofs.C16Instances
+/-!
+# C16 — property theorems (helper lemmas in `Proofs/C16*.lean`)
+
+Vocabulary (defined in `Proofs/C16Basic.lean`, `Proofs/C16Algebra.lean`):
+
+* `WF0 s` — the representation invariant of a set object `s : MSet α` of any of the three
+  implementations: its `equal` callback decides `=` (`set`, `stable`) resp. its `compare` callback is a
+  total order (`sorted`: returns a sign function `c` with `c a b = 0 ↔ a = b`, antisymmetric, `<`
+  transitive), the member slice has no duplicates, and for `sorted` is strictly ascending for
+  `compare`.  `MSet.new` of a lawful callback satisfies it and every operation below preserves it, so
+  it holds after *every* history; each theorem is therefore one step of the refinement, for an
+  arbitrary reachable state, arbitrary arguments and an arbitrary mix of implementations.
+* `ShLaw sh` — all that is assumed of the shuffle behind the unordered set's `All()`: it returns a
+  permutation of the indices.
+* `Spec.FSet` — duplicate-free lists up to permutation (`FSet.Equiv`), with `insertAll`, `eraseAll`,
+  `memAll`, `card`, `eq`, `subset`, `unionAll`, `interAll`, `diffAll`.
+-/
+open AlgoVerif AlgoVerif.C16 AlgoVerif.C16.Spec
+
+/-! ## refinement of the single-set operations, for each implementation -/
+
+/-- a freshly constructed set of any implementation with a lawful callback is a valid empty set -/
+theorem C16_new_refines {α : Type} {impl : Impl α} (hl : ImplLaw (fun _ => True) Eq impl) :
+    WF0 (MSet.new impl) ∧ (MSet.new impl).members = FSet.empty :=
+  ⟨wf0_new hl, rfl⟩
+
+example : WF0 (MSet.new (.sorted Driver.cmpDesc)) := (C16_new_refines (impl := .sorted Driver.cmpDesc) cmpDesc_law).1
+
+/-- `Add(vals...)` never panics or diverges, keeps the invariant and the implementation, and the new
+member list denotes the old set with the values inserted -/
+theorem C16_add_refines {α : Type} [DecidableEq α] {s : MSet α} (h : WF0 s) (vs : List α) :
+    ∃ s', s.add vs = .ok s' ∧ WF0 s' ∧ s'.impl = s.impl ∧
+      FSet.Equiv s'.members (FSet.insertAll s.members vs) := by
+  obtain ⟨s', h₁, hw, hi, hm⟩ := MSet.add_spec0 h vs
+  refine ⟨s', h₁, hw, hi, equiv_of_mem_iff hw.nodup (FSet.valid_insertAll h.nodup) (fun x => ?_)⟩
+  rw [hm, FSet.mem_insertAll]
+
+example : ∃ s', exAsc.add [4, 1, 0] = .ok s' ∧ WF0 s' ∧ s'.impl = exAsc.impl ∧
+    FSet.Equiv s'.members (FSet.insertAll exAsc.members [4, 1, 0]) := C16_add_refines exAsc_wf _
+
+/-- `Remove(vals...)`: the new member list is the old one without the values — same set, and the
+remaining members keep their order (all three implementations) -/
+theorem C16_remove_refines {α : Type} [DecidableEq α] {s : MSet α} (h : WF0 s) (vs : List α) :
+    ∃ s', s.remove vs = .ok s' ∧ WF0 s' ∧ s'.impl = s.impl ∧
+      s'.members = FSet.eraseAll s.members vs := by
+  obtain ⟨s', h₁, hw, hi, _⟩ := MSet.remove_spec0 h vs
+  obtain ⟨s'', h₂, hm⟩ := MSet.remove_seq0 h vs
+  rw [h₁] at h₂
+  cases h₂
+  exact ⟨s', h₁, hw, hi, hm⟩
+
+example : ∃ s', exUnordered.remove [1, 9] = .ok s' ∧ WF0 s' ∧ s'.impl = exUnordered.impl ∧
+    s'.members = FSet.eraseAll exUnordered.members [1, 9] := C16_remove_refines exUnordered_wf _
+
+/-- `RemoveAll()` -/
+theorem C16_removeAll_refines {α : Type} {s : MSet α} (h : WF0 s) :
+    WF0 s.removeAll ∧ s.removeAll.impl = s.impl ∧ s.removeAll.members = FSet.empty :=
+  ⟨⟨by simp [MSet.removeAll], by simp [MSet.removeAll], h.law, fun _ _ => by simp [MSet.removeAll, SortedBy]⟩,
+    rfl, rfl⟩
+
+example : WF0 exDesc.removeAll := (C16_removeAll_refines exDesc_wf).1
+
+/-- `Contains(vals...)` answers "all values are members" -/
+theorem C16_contains_refines {α : Type} [DecidableEq α] {s : MSet α} (h : WF0 s) (vs : List α) :
+    s.contains vs = .ok (FSet.memAll s.members vs) := by
+  obtain ⟨r, hr, hiff⟩ := MSet.contains_spec eq_equivalence h vs (fun _ _ => trivial)
+  rw [hr]
+  congr 1
+  rw [Bool.eq_iff_iff, hiff, FSet.memAll_iff]
+  simp
+
+example : exDesc.contains [2, 6] = .ok (FSet.memAll exDesc.members [2, 6]) := C16_contains_refines exDesc_wf _
+
+/-- `Size()`, `IsEmpty()` -/
+theorem C16_size_refines {α : Type} (s : MSet α) :
+    s.size = (FSet.card s.members : Int) ∧ s.isEmpty = (FSet.card s.members == 0) :=
+  ⟨rfl, rfl⟩
+
+/-- ranging over `All()` yields every member exactly once (for any lawful shuffle) -/
+theorem C16_all_refines {α σ : Type} {sh : Shuffle σ} (hsh : ShLaw sh) (s : MSet α) (g : σ) :
+    ∃ ms g', s.all sh g = .ok (ms, g') ∧ FSet.Equiv ms s.members := by
+  obtain ⟨ms, g', h, hp, _⟩ := MSet.all_spec hsh s g
+  exact ⟨ms, g', h, hp⟩
+
+example : ∃ ms g', exUnordered.all revShuffle () = .ok (ms, g') ∧ FSet.Equiv ms exUnordered.members :=
+  C16_all_refines revShuffle_law _ _
+
+/-- `Equal` between any two implementations decides equality of the two sets -/
+theorem C16_equal_refines {α : Type} [DecidableEq α] {s t : MSet α} (hs : WF0 s) (ht : WF0 t) :
+    s.equal t = .ok (FSet.eq s.members t.members) := by
+  obtain ⟨r, hr, hiff⟩ := MSet.equal_spec0 hs ht
+  rw [hr]
+  congr 1
+  rw [Bool.eq_iff_iff, hiff, FSet.eq_iff]
+
+example : exStable.equal exAsc = .ok (FSet.eq exStable.members exAsc.members) := C16_equal_refines exStable_wf exAsc_wf
+
+/-- `IsSubset` between any two implementations -/
+theorem C16_isSubset_refines {α σ : Type} [DecidableEq α] {sh : Shuffle σ} (hsh : ShLaw sh) {s t : MSet α}
+    (ht : WF0 t) (g : σ) : ∃ g', s.isSubset sh t g = .ok (FSet.subset s.members t.members, g') := by
+  obtain ⟨r, g', hr, hiff⟩ := MSet.isSubset_spec0 hsh (s := s) ht g
+  refine ⟨g', ?_⟩
+  rw [hr]
+  congr 2
+  rw [Bool.eq_iff_iff, hiff, FSet.subset_iff]
+
+/-- `IsSuperset` between any two implementations -/
+theorem C16_isSuperset_refines {α σ : Type} [DecidableEq α] {sh : Shuffle σ} (hsh : ShLaw sh) {s t : MSet α}
+    (hs : WF0 s) (g : σ) : ∃ g', s.isSuperset sh t g = .ok (FSet.subset t.members s.members, g') := by
+  obtain ⟨r, g', hr, hiff⟩ := MSet.isSuperset_spec0 hsh (t := t) hs g
+  refine ⟨g', ?_⟩
+  rw [hr]
+  congr 2
+  rw [Bool.eq_iff_iff, hiff, FSet.subset_iff]
+
+example : ∃ g', exUnordered.isSubset revShuffle exDesc () = .ok (FSet.subset exUnordered.members exDesc.members, g') :=
+  C16_isSubset_refines revShuffle_law exDesc_wf _
+
+/-- `Clone` returns a set object with the same implementation and members; `CloneEmpty` a valid empty
+one.  (In the functional Model a value cannot be changed through another one; that later writes to
+either object do not reach the other in the Go code is validated on every explored run: the harness
+compares every register other than the destination with its snapshot after every operation.) -/
+theorem C16_clone_refines {α : Type} {s : MSet α} (h : WF0 s) :
+    s.clone = s ∧ WF0 s.cloneEmpty ∧ s.cloneEmpty.impl = s.impl ∧ s.cloneEmpty.members = FSet.empty :=
+  ⟨rfl, wf0_cloneEmpty h, rfl, rfl⟩
+
+/-! ## set algebra with any number and mix of operand implementations -/
+
+/-- `s.Union(sets...)`: a valid set of the receiver's implementation denoting `s ∪ ⋃ sets` -/
+theorem C16_union_spec {α σ : Type} [DecidableEq α] {sh : Shuffle σ} (hsh : ShLaw sh) {s : MSet α} (h : WF0 s)
+    (sets : List (MSet α)) (hsets : ∀ u ∈ sets, WF0 u) (g : σ) :
+    ∃ t g', s.union sh sets g = .ok (t, g') ∧ WF0 t ∧ t.impl = s.impl ∧
+      FSet.Equiv t.members (FSet.unionAll s.members (sets.map (·.members))) := by
+  obtain ⟨t, g', h₁, hw, hi, hm, _⟩ := MSet.union_spec0 hsh h sets g
+  refine ⟨t, g', h₁, hw, hi, equiv_of_mem_iff hw.nodup
+    (FSet.valid_unionAll h.nodup (by
+      intro b hb
+      obtain ⟨u, hu, rfl⟩ := List.mem_map.1 hb
+      exact (hsets u hu).nodup)) (fun x => ?_)⟩
+  rw [hm, FSet.mem_unionAll, exists_mem_map_members sets (x ∈ ·)]
+
+example : ∃ t g', exStable.union revShuffle [exUnordered, exDesc, exStable] () = .ok (t, g') ∧ WF0 t ∧
+    t.impl = exStable.impl ∧
+    FSet.Equiv t.members (FSet.unionAll exStable.members ([exUnordered, exDesc, exStable].map (·.members))) :=
+  C16_union_spec revShuffle_law exStable_wf _ (by
+    intro u hu; simp at hu; rcases hu with rfl | rfl | rfl
+    · exact exUnordered_wf
+    · exact exDesc_wf
+    · exact exStable_wf) _
+
+/-- `s.Intersection(sets...)`: a valid set of the receiver's implementation denoting `s ∩ ⋂ sets` -/
+theorem C16_intersection_spec {α : Type} [DecidableEq α] {s : MSet α} (h : WF0 s)
+    (sets : List (MSet α)) (hsets : ∀ u ∈ sets, WF0 u) :
+    ∃ t, s.intersection sets = .ok t ∧ WF0 t ∧ t.impl = s.impl ∧
+      FSet.Equiv t.members (FSet.interAll s.members (sets.map (·.members))) := by
+  obtain ⟨t, h₁, hw, hi, hm, _⟩ := MSet.intersection_spec0 h sets hsets
+  refine ⟨t, h₁, hw, hi, equiv_of_mem_iff hw.nodup
+    (List.Pairwise.sublist FSet.interAll_sublist h.nodup) (fun x => ?_)⟩
+  rw [hm, FSet.mem_interAll, forall_mem_map_members sets (x ∈ ·)]
+
+example : ∃ t, exAsc.intersection [exStable, exUnordered] = .ok t ∧ WF0 t ∧ t.impl = exAsc.impl ∧
+    FSet.Equiv t.members (FSet.interAll exAsc.members ([exStable, exUnordered].map (·.members))) :=
+  C16_intersection_spec exAsc_wf _ (by
+    intro u hu; simp at hu; rcases hu with rfl | rfl
+    · exact exStable_wf
+    · exact exUnordered_wf)
+
+/-- `s.Difference(sets...)`: a valid set of the receiver's implementation whose member list is the
+receiver's without the members of the operands, in the receiver's order -/
+theorem C16_difference_spec {α σ : Type} [DecidableEq α] {sh : Shuffle σ} (hsh : ShLaw sh) {s : MSet α} (h : WF0 s)
+    (sets : List (MSet α)) (g : σ) :
+    ∃ t g', s.difference sh sets g = .ok (t, g') ∧ WF0 t ∧ t.impl = s.impl ∧
+      t.members = FSet.diffAll s.members (sets.map (·.members)) := by
+  obtain ⟨t, g', h₁, hw, hi, hm, hsub⟩ := MSet.difference_spec0 hsh h sets g
+  refine ⟨t, g', h₁, hw, hi, sublist_ext h.nodup hsub FSet.diffAll_sublist (fun x => ?_)⟩
+  rw [hm, FSet.mem_diffAll, forall_mem_map_members sets (x ∉ ·)]
+
+example : ∃ t g', exDesc.difference revShuffle [exUnordered, exDesc] () = .ok (t, g') ∧ WF0 t ∧
+    t.impl = exDesc.impl ∧ t.members = FSet.diffAll exDesc.members ([exUnordered, exDesc].map (·.members)) :=
+  C16_difference_spec revShuffle_law exDesc_wf _ _
+
+/-! ## iteration order -/
+
+/-- the stable set iterates in insertion order: `All()` yields the stored sequence (no shuffle), `Add`
+appends each new value (`Seq.insertAll`), `Remove` deletes in place (`Seq.eraseAll`), `Union` keeps the
+receiver's sequence as a prefix, `Intersection`/`Difference` are the receiver's sequence filtered.
+(Stated for every implementation that is not `sorted`, i.e. also for the slice inside the unordered set.) -/
+theorem C16_stable_insertion_order {α σ : Type} [DecidableEq α] {sh : Shuffle σ} (hsh : ShLaw sh) {s : MSet α}
+    (h : WF0 s) (hl : s.impl.isSorted = false) (vs : List α) (sets : List (MSet α)) (hsets : ∀ u ∈ sets, WF0 u) (g : σ) :
+    (s.impl.isUnordered = false → s.all sh g = .ok (s.members, g)) ∧
+    (∃ s', s.add vs = .ok s' ∧ s'.members = Seq.insertAll s.members vs) ∧
+    (∃ s', s.remove vs = .ok s' ∧ s'.members = Seq.eraseAll s.members vs) ∧
+    (∃ t g', s.union sh sets g = .ok (t, g') ∧ s.members <+: t.members) ∧
+    (∃ t, s.intersection sets = .ok t ∧ t.members = FSet.interAll s.members (sets.map (·.members))) ∧
+    (∃ t g', s.difference sh sets g = .ok (t, g') ∧ t.members = FSet.diffAll s.members (sets.map (·.members))) := by
+  refine ⟨?_, MSet.add_seq0 h hl vs, MSet.remove_seq0 h vs, ?_, ?_, ?_⟩
+  · intro hu
+    obtain ⟨ms, g', h₁, _, hord⟩ := MSet.all_spec hsh s g
+    obtain ⟨rfl, rfl⟩ := hord hu
+    exact h₁
+  · obtain ⟨t, g', h₁, _, _, _, hpre⟩ := MSet.union_spec0 hsh h sets g
+    exact ⟨t, g', h₁, hpre hl⟩
+  · obtain ⟨t, h₁, hw, _, hm, hsub⟩ := MSet.intersection_spec0 h sets hsets
+    refine ⟨t, h₁, sublist_ext h.nodup (hsub hl) FSet.interAll_sublist (fun x => ?_)⟩
+    rw [hm, FSet.mem_interAll, forall_mem_map_members sets (x ∈ ·)]
+  · obtain ⟨t, g', h₁, _, _, hm⟩ := C16_difference_spec hsh h sets g
+    exact ⟨t, g', h₁, hm⟩
+
+example : exStable.impl.isSorted = false ∧ exStable.impl.isUnordered = false := ⟨rfl, rfl⟩
+
+/-- the sorted set iterates in comparator order, for any lawful comparator: the stored sequence is
+strictly ascending for `compare` in every reachable state — initially and after `Add`, `Remove`, `Union`,
+`Intersection`, `Difference` with any operands — and `All()` yields exactly that sequence. -/
+theorem C16_sorted_comparator_order {α σ : Type} {sh : Shuffle σ} (hsh : ShLaw sh) {s : MSet α} {compare : CompareFunc α}
+    (h : WF0 s) (hi : s.impl = .sorted compare) (vs : List α) (sets : List (MSet α)) (hsets : ∀ u ∈ sets, WF0 u) (g : σ) :
+    SortedBy compare s.members ∧ s.all sh g = .ok (s.members, g) ∧
+    (∃ s', s.add vs = .ok s' ∧ SortedBy compare s'.members) ∧
+    (∃ s', s.remove vs = .ok s' ∧ SortedBy compare s'.members) ∧
+    (∃ t g', s.union sh sets g = .ok (t, g') ∧ SortedBy compare t.members) ∧
+    (∃ t, s.intersection sets = .ok t ∧ SortedBy compare t.members) ∧
+    (∃ t g', s.difference sh sets g = .ok (t, g') ∧ SortedBy compare t.members) := by
+  refine ⟨h.sorted compare hi, ?_, ?_, ?_, ?_, ?_, ?_⟩
+  · obtain ⟨ms, g', h₁, _, hord⟩ := MSet.all_spec hsh s g
+    obtain ⟨rfl, rfl⟩ := hord (by rw [hi]; rfl)
+    exact h₁
+  · obtain ⟨s', h₁, hw, hi', _⟩ := MSet.add_spec0 h vs
+    exact ⟨s', h₁, hw.sorted compare (hi'.trans hi)⟩
+  · obtain ⟨s', h₁, hw, hi', _⟩ := MSet.remove_spec0 h vs
+    exact ⟨s', h₁, hw.sorted compare (hi'.trans hi)⟩
+  · obtain ⟨t, g', h₁, hw, hi', _⟩ := MSet.union_spec0 hsh h sets g
+    exact ⟨t, g', h₁, hw.sorted compare (hi'.trans hi)⟩
+  · obtain ⟨t, h₁, hw, hi', _⟩ := MSet.intersection_spec0 h sets hsets
+    exact ⟨t, h₁, hw.sorted compare (hi'.trans hi)⟩
+  · obtain ⟨t, g', h₁, hw, hi', _⟩ := MSet.difference_spec0 hsh h sets g
+    exact ⟨t, g', h₁, hw.sorted compare (hi'.trans hi)⟩
+
+example : SortedBy Driver.cmpDesc exDesc.members :=
+  (C16_sorted_comparator_order revShuffle_law exDesc_wf rfl [] [] (by simp) ()).1
+
+/-! ## Powerset and Partitions -/
+
+/-- `Powerset(s)` returns (without panicking, and with recursion depth `Size()+1`) a set of set objects in
+which every member is a valid subset of `s`, every subset of `s` — given as an arbitrary predicate on
+the members — occurs, no two members denote the same set, and there are exactly `2^n` of them. -/
+theorem C16_powerset_exact {α σ : Type} {sh : Shuffle σ} (hsh : ShLaw sh) {s : MSet α} (h : WF0 s) (g : σ) :
+    ∃ PS g', s.powerset sh g = .ok (PS, g') ∧
+      (∀ T ∈ PS.members, WF0 T ∧ ∀ x ∈ T.members, x ∈ s.members) ∧
+      (∀ p : α → Prop, ∃ T ∈ PS.members, ∀ x, x ∈ T.members ↔ x ∈ s.members ∧ p x) ∧
+      PS.members.Pairwise (fun A B => ¬ ∀ x, x ∈ A.members ↔ x ∈ B.members) ∧
+      PS.members.length = 2 ^ s.members.length := by
+  obtain ⟨PS, g', h₁, hspec⟩ := powerset_spec hsh (s.members.length + 1) s h g (by omega)
+  exact ⟨PS, g', h₁, fun T hT => ⟨hspec.wf.mem_dom T hT, hspec.sound T hT⟩, hspec.complete, hspec.wf.nodup, hspec.card⟩
+
+example : ∃ PS g', exAsc.powerset revShuffle () = .ok (PS, g') ∧ PS.members.length = 2 ^ 3 := by
+  obtain ⟨PS, g', h, _, _, _, hc⟩ := C16_powerset_exact revShuffle_law exAsc_wf ()
+  exact ⟨PS, g', h, hc⟩
+
+/-
+Full statement of `partitions_exact` (every set partition exactly once):
+
+  theorem C16_partitions_exact … :
+    ∃ Ps g', s.partitions sh g = .ok (Ps, g') ∧
+      (∀ P ∈ Ps.members, IsPart s P) ∧                                            -- only partitions
+      (∀ F : List (List α), IsPartition F s.members →
+          ∃ P ∈ Ps.members, SameFamily (P.members.map (·.members)) F) ∧            -- every partition occurs
+      Ps.members.Pairwise (fun P Q => ¬ FamEq P Q)                                 -- none twice
+      (and hence `Ps.members.length = Bell (s.members.length)`)
+
+Proved below: the first and the third conjunct, i.e. `Partitions(s)` returns (without panicking, with
+recursion depth `Size()+1`) a set of pairwise different partitions of `s`.  Missing: the second conjunct
+(and with it the count).  `Proofs/C16Partitions.lean` already proves the step it needs
+(`partitionsLoop_spec`: for every partition `P` of the tail, the result contains `{head} ∪ P` and, for
+every block `b` of `P`, `P` with the head put into `b`); what is not done is the induction that cuts the
+head out of an arbitrary abstract partition.  On every run the harness checks count = Bell(n),
+distinctness and partition-hood for n ≤ 6 on all four implementations/comparators.
+-/
+theorem C16_partitions_exact_partial {α σ : Type} {sh : Shuffle σ} (hsh : ShLaw sh) {s : MSet α} (h : WF0 s) (g : σ) :
+    ∃ Ps g', s.partitions sh g = .ok (Ps, g') ∧
+      (∀ P ∈ Ps.members, IsPart s P) ∧
+      Ps.members.Pairwise (fun P Q => ¬ FamEq P Q) := by
+  obtain ⟨Ps, g', h₁, hspec⟩ := partitions_spec hsh (s.members.length + 1) s h g (by omega)
+  exact ⟨Ps, g', h₁, hspec.sound, hspec.wf.nodup⟩
+
+example : ∃ Ps g', exUnordered.partitions revShuffle () = .ok (Ps, g') ∧ ∀ P ∈ Ps.members, IsPart exUnordered P := by
+  obtain ⟨Ps, g', h, hs, _⟩ := C16_partitions_exact_partial revShuffle_law exUnordered_wf ()
+  exact ⟨Ps, g', h, hs⟩
